@@ -103,6 +103,34 @@ Theorem C10_cascade_tags_before_or_after :
 Proof. exact cascade_tags_src. Qed.
 Print Assumptions C10_cascade_tags_before_or_after.
 
+(* GC as the code does it: Forget (rebuild the maps, save index.json), then BARE removals of
+   blob files (os.Remove, no Store.delete).  Under the fact the sweep relies on -- no swept
+   blob is in the live set or carries a reference name (checked by the harness on every
+   recorded GC) -- each removal of the call is exactly one unlink (the model's plain Delete
+   degenerates to it), the tag mapping read from index.json is unchanged at every cut, and
+   index.json is the one before the call or the one Forget saved.  Together with
+   C10_crash_safe_composite and C10_cascade_blobs_between (gc_ops is such a list) this is
+   the property for GC. *)
+Theorem C10_gc_crash_safe :
+  forall (H : list N -> N) (shuffle : nat -> list entry -> list entry),
+    (forall c l e, In e (shuffle c l) <-> In e l) ->
+    forall (h : list hop) (live xs : list N) (k : nat),
+      let s := runc H shuffle src_inplace src_unlink_first true h init in
+      (forall l, read_index (sfs s) = Some l ->
+         forall x, In x xs -> ~ In x live /\ forall r, ~ tag_of l r x) ->
+      let os := gc_ops live xs in
+      let fsk := crash_seq H shuffle src_inplace src_unlink_first true s os k in
+      (forall pre x post, map Delete xs = pre ++ Delete x :: post ->
+         let sj := run H shuffle src_inplace src_unlink_first true pre
+                     (run_op H shuffle src_inplace src_unlink_first true s (Forget live)) in
+         op_steps H shuffle src_inplace src_unlink_first true sj (Delete x)
+           = if exists_file (sfs sj) (FBlob x) then [Unlink (FBlob x)] else []) /\
+      same_tags fsk (sfs s) /\
+      (read_index fsk = read_index (sfs s) \/
+       read_index fsk = read_index (sfs (run_op H shuffle src_inplace src_unlink_first true s (Forget live)))).
+Proof. exact gc_crash_safe_src. Qed.
+Print Assumptions C10_gc_crash_safe.
+
 (* the tag mapping a reader derives from index.json is the one before or the one after *)
 Theorem C10_tag_mapping_before_or_after :
   forall (H : list N -> N) (shuffle : nat -> list entry -> list entry),
@@ -211,6 +239,20 @@ Theorem C10_crash_safe_refuted_autosave_off :
         (sfs (run_op H (fun _ l => l) false false false s o)).
 Proof. exact crash_unsafe_autosave_off. Qed.
 Print Assumptions C10_crash_safe_refuted_autosave_off.
+
+(* the hypotheses of the cascade / GC theorems are satisfiable on a non-trivial instance:
+   a layer (1), an untagged manifest (3) and a tagged manifest (2); GC with live = [2]
+   sweeps 1 and 3; the cut after Forget and one removal *)
+Example C10_gc_example_instance :
+  let H := fun c : list N => match c with [7] => 1 | [9] => 2 | [8] => 3 | _ => 0 end in
+  let id := fun (_ : nat) (l : list entry) => l in
+  let h := [Done (Push 1 [7] false); Done (Push 2 [9] true); Done (Push 3 [8] true); Done (Tag 2 5)] in
+  let s := runc H id src_inplace src_unlink_first true h init in
+  let fsk := crash_seq H id src_inplace src_unlink_first true s (gc_ops [2] [1; 3]) 5 in
+  read_index (sfs s) = Some [(2, Some 5); (3, None)] /\
+  read_index fsk = Some [(2, Some 5)] /\
+  exists_file fsk (FBlob 1) = false /\ exists_file fsk (FBlob 3) = true /\ exists_file fsk (FBlob 2) = true.
+Proof. vm_compute. repeat split; reflexivity. Qed.
 
 (* The hypotheses are satisfiable and the statement is not vacuous: a concrete history
    (push a layer, push a manifest, tag it, delete it cut after the index rename). *)
